@@ -345,6 +345,26 @@ func stopBacklogCase(k *engine.Case) {
 			k.Fail("stale-cache-from-other-group", "second group (fresh, its store was empty): DoAdd(%v) returned (%v, %v), its store now holds %v (present=%v)", key, res.v, res.err, sv, inStore)
 			return
 		}
+		// the key is cached now: another add is a duplicate whatever it carries - also the very
+		// value that is cached (a re-sent request) - and must not reach the store
+		touched := false
+		again, ok := call(d, "add again", func() any {
+			v, err := g2.DoAdd(context.Background(), func(ctx context.Context, dd interface{}) (interface{}, error) {
+				touched = true
+				return dd, nil
+			}, key, res.v)
+			return opRes{v, err}
+		})
+		if !ok {
+			k.Fail("operation-stuck", "second group: the repeated DoAdd(%v) never returned", key)
+			return
+		}
+		k.Evals(1)
+		k.Count("dup_add_with_cached_value_as_payload", 1)
+		if r2 := again.Result().(opRes); r2.err != mux.ErrDupKey || touched {
+			k.Fail("dup-add-not-rejected", "DoAdd(%v) for a key that is cached, carrying the cached value %v itself, returned (%v, %v) (store add callback invoked: %v) instead of ErrDupKey without touching the store", key, res.v, r2.v, r2.err, touched)
+			return
+		}
 	}
 	k.Count("stop_backlog_cases_ok", 1)
 }
